@@ -330,13 +330,15 @@ Record cfg := {
                                        (not the case in the code as it is) *)
   d_withdraw_paused : bool;         (* Governance.WithdrawProposal accepts a PAUSED proposal (locked by a higher-priority proposal of the
                                        same object, or paused with its object) and rejects it against whatever status the object has *)
+  d_unpause_restores_locked : bool; (* UnPauseChainService restores a paused proposal of EVERY registered service, paused or not: a proposal
+                                       locked by a pending logout is restored and re-triggered from status logouting *)
   d_cache_key : N -> N;             (* the key under which the executor cache holds the record of a service id: the identity in the
                                        code as it is (exact "chain:service" string) *)
   d_cache_deferred : bool           (* the executor cache takes the records posted by a transaction only at the end of the block
                                        (not the case in the code as it is: applyTx stores them right after the transaction) *)
 }.
-Definition cfg_fixed : cfg := {| d_cache_failed_events := false; d_cache_not_reloaded := false; d_logout_reject_unpauses := false; d_manage_reject_only := false; d_withdraw_paused := false; d_cache_key := fun i => i; d_cache_deferred := false |}.
-Definition cfg_faithful : cfg := {| d_cache_failed_events := true; d_cache_not_reloaded := true; d_logout_reject_unpauses := true; d_manage_reject_only := false; d_withdraw_paused := true; d_cache_key := fun i => i; d_cache_deferred := false |}.
+Definition cfg_fixed : cfg := {| d_cache_failed_events := false; d_cache_not_reloaded := false; d_logout_reject_unpauses := false; d_manage_reject_only := false; d_withdraw_paused := false; d_unpause_restores_locked := false; d_cache_key := fun i => i; d_cache_deferred := false |}.
+Definition cfg_faithful : cfg := {| d_cache_failed_events := true; d_cache_not_reloaded := true; d_logout_reject_unpauses := true; d_manage_reject_only := false; d_withdraw_paused := true; d_unpause_restores_locked := true; d_cache_key := fun i => i; d_cache_deferred := false |}.
 
 (** * Service manager *)
 Definition lock_svc (i : N) (ev : string) (k : prog) : prog := Gov (fun ps => fst (lock_low KSvc i 0 ev ps)) k.
@@ -389,8 +391,11 @@ Definition svc_manage (ro : bool) (ev trigger last : string) (i : N) (black : li
                            end)
        else k).
 
-(** unPauseService: restore the highest-priority paused proposal and re-trigger its event *)
-Definition unpause_service (i : N) (k : prog) : prog :=
+(** unPauseService: restore the highest-priority paused proposal and re-trigger its event.
+    [rl] (the code as it is): also for a service that is NOT paused - its paused proposal is then one that a
+    higher-priority proposal (a pending logout) has LOCKED, and it is restored and re-triggered from whatever status
+    the service has *)
+Definition unpause_service (rl : bool) (i : N) (k : prog) : prog :=
   RdSvc i (fun r =>
     let k' := RdProps (fun ps =>
                 match best_paused KSvc i 0 ps 0 None with
@@ -400,7 +405,7 @@ Definition unpause_service (i : N) (k : prog) : prog :=
                         (Scope i (svc_manage false Ev_Unpause (p_event lp) "" i [] CAUSE_CASCADE Ret) k)
                 end) in
     match r with
-    | Some x => if pre_ok KSvc Ev_Unpause (sv_status x) then SFire Ev_Unpause "" CAUSE_CASCADE k' else k'
+    | Some x => if pre_ok KSvc Ev_Unpause (sv_status x) then SFire Ev_Unpause "" CAUSE_CASCADE k' else if rl then k' else k
     | None => k'
     end).
 
@@ -412,7 +417,7 @@ Fixpoint each_service (ids : list N) (f : N -> prog -> prog) (k : prog) : prog :
 
 Definition pause_chain_services (c : N) (k : prog) : prog := RdReg c (fun ids => each_service ids (fun i => pause_service i CAUSE_CASCADE) k).
 Definition clear_chain_services (c : N) (k : prog) : prog := RdReg c (fun ids => each_service ids (fun i => clear_service i CAUSE_CASCADE) k).
-Definition unpause_chain_services (c : N) (k : prog) : prog := RdReg c (fun ids => each_service ids unpause_service k).
+Definition unpause_chain_services (rl : bool) (c : N) (k : prog) : prog := RdReg c (fun ids => each_service ids (unpause_service rl) k).
 
 (** a blacklist entry must name an existing service that is not logged out (checkPermissionService) *)
 Fixpoint black_ok (b : list N) (k : prog) : prog :=
@@ -486,9 +491,9 @@ Definition chain_manage (f : cfg) (ev trigger last : string) (c : N) (k : prog) 
   let after :=
     if String.eqb trigger Ev_Approve then
       if String.eqb ev Ev_Register then NewChain c (NewRules c (FireRule c 0 Ev_Bind St_Bindable CAUSE_CONCL k))
-      else if String.eqb ev Ev_Update then unpause_chain_services c k
+      else if String.eqb ev Ev_Update then unpause_chain_services (d_unpause_restores_locked f) c k
       else if String.eqb ev Ev_Freeze then pause_chain_services c k
-      else if String.eqb ev Ev_Activate then unpause_chain_services c k
+      else if String.eqb ev Ev_Activate then unpause_chain_services (d_unpause_restores_locked f) c k
       else if String.eqb ev Ev_Logout then
         clear_chain_services c
           (RdRules c (fun l =>
@@ -505,9 +510,9 @@ Definition chain_manage (f : cfg) (ev trigger last : string) (c : N) (k : prog) 
     else
       if String.eqb ev Ev_Register then SetOcc (filter (fun x => negb (x =? c)%N)) k
       else if String.eqb ev Ev_Logout then
-        (if d_logout_reject_unpauses f then unpause_chain_services c k
+        (if d_logout_reject_unpauses f then unpause_chain_services (d_unpause_restores_locked f) c k
          else RdChain c (fun cs => match cs with
-                                   | Some st => if chain_avail st then unpause_chain_services c k else k
+                                   | Some st => if chain_avail st then unpause_chain_services (d_unpause_restores_locked f) c k else k
                                    | None => Fail
                                    end))
       else k in
@@ -563,7 +568,7 @@ Definition rule_update (c r : N) : prog :=
           end)
     end).
 
-Definition rule_manage (ev trigger last : string) (c r old : N) (oldst chainst : string) (k : prog) : prog :=
+Definition rule_manage (f : cfg) (ev trigger last : string) (c r old : N) (oldst chainst : string) (k : prog) : prog :=
   if String.eqb ev Ev_Update then
     FireRule c old trigger oldst CAUSE_CONCL
       (FireRule c r trigger last CAUSE_CONCL
@@ -575,7 +580,7 @@ Definition rule_manage (ev trigger last : string) (c r old : N) (oldst chainst :
               | Some st => if negb (pre_ok KChain Ev_Unpause st) then Fail
                            else if String.eqb chainst St_Frozen then k
                            else FireChain c Ev_Unpause chainst CAUSE_CASCADE
-                                  (if String.eqb chainst St_Available then unpause_chain_services c k else k)
+                                  (if String.eqb chainst St_Available then unpause_chain_services (d_unpause_restores_locked f) c k else k)
               end)
           else k))
   else k.
@@ -602,7 +607,7 @@ Definition manage (f : cfg) (p : prop) (trigger : string) (k : prog) : prog :=
   match p_kind p with
   | KChain => chain_manage f (p_event p) trigger (p_last p) (p_obj p) k
   | KSvc => Scope (p_obj p) (svc_manage (d_manage_reject_only f) (p_event p) trigger (p_last p) (p_obj p) (p_black p) CAUSE_CONCL Ret) k
-  | KRule => rule_manage (p_event p) trigger (p_last p) (p_chain p) (p_obj p) (p_old p) (p_oldst p) (p_chainst p) k
+  | KRule => rule_manage f (p_event p) trigger (p_last p) (p_chain p) (p_obj p) (p_old p) (p_oldst p) (p_chainst p) k
   | KRole => role_manage (p_event p) trigger (p_last p) (p_obj p) k
   | KNode => Fail
   end.
@@ -877,26 +882,41 @@ Definition gate_obs (o : op) (ob : obs) : bool :=
   | _ => true
   end.
 
-(** positions of a history made of blocks: (operation, the gate check is meaningful here, last of its block).
+(** ** a pending logout: a service in status logouting stays so or becomes forbidden, unless the step (the block)
+    holds a rejection or a withdrawal (its logout not approved: it returns to its last status) *)
+Definition is_reject (o : op) : bool := match o with OConclude _ false | OWithdraw _ => true | _ => false end.
+Definition logout_step (a b : obs) : bool :=
+  forallb (fun e : N * svc =>
+             negb (String.eqb (sv_status (snd e)) St_Logouting) ||
+             match alookup N.eqb (fst e) (ob_svcs b) with
+             | Some x => String.eqb (sv_status x) St_Logouting || String.eqb (sv_status x) St_Forbidden
+             | None => false
+             end) (ob_svcs a).
+
+(** positions of a history made of blocks: (operation, the gate check is meaningful here, last of its block, the block
+    holds no rejection / withdrawal).
     Inside a block only the state after the block can be read back; the stored records at the position of a request
     are those after the block exactly when only requests follow it in the block. *)
 Definition is_ibtp (o : op) : bool := match o with OIbtp _ _ => true | _ => false end.
-Fixpoint block_mask (ops : list op) : list (op * bool * bool) :=
+Fixpoint block_mask_aux (strict : bool) (ops : list op) : list (op * bool * bool * bool) :=
   match ops with
   | [] => []
-  | o :: t => (o, forallb is_ibtp t, match t with [] => true | _ => false end) :: block_mask t
+  | o :: t => (o, forallb is_ibtp t, match t with [] => true | _ => false end, strict) :: block_mask_aux strict t
   end.
-Definition hist_mask (bs : list (list op)) : list (op * bool * bool) := flat_map block_mask bs.
-Definition flat_mask (h : list op) : list (op * bool * bool) := map (fun o => (o, true, true)) h.
+Definition block_mask (ops : list op) : list (op * bool * bool * bool) := block_mask_aux (negb (existsb is_reject ops)) ops.
+Definition hist_mask (bs : list (list op)) : list (op * bool * bool * bool) := flat_map block_mask bs.
+Definition flat_mask (h : list op) : list (op * bool * bool * bool) := map (fun o => (o, true, true, negb (is_reject o))) h.
 
-(** the property on a trace; returns 0 when it holds, else which*100000 + step (which: 1 gate 2 declared 3 forever 4 cascade) *)
-Fixpoint P_trace_from (h : list (op * bool * bool)) (prev : obs) (tr : list obs) (i : N) : N :=
+(** the property on a trace; returns 0 when it holds, else which*100000 + step (which: 1 gate 2 declared 3 forever 4 cascade
+    5 pending logout) *)
+Fixpoint P_trace_from (h : list (op * bool * bool * bool)) (prev : obs) (tr : list obs) (i : N) : N :=
   match h, tr with
-  | (o, chk, _) :: h', ob :: tr' =>
+  | (o, chk, _, strict) :: h', ob :: tr' =>
       if chk && negb (gate_obs o ob) then 100000 + i
       else if negb (declared_step prev ob) then 200000 + i
       else if negb (forever_step prev ob) then 300000 + i
       else if negb (cascade_obs ob) then 400000 + i
+      else if strict && negb (logout_step prev ob) then 500000 + i
       else P_trace_from h' ob tr' (N.succ i)
   | _, _ => 0
   end%N.
@@ -910,9 +930,9 @@ Definition P_b_blocks (bs : list (list op)) (tr : list obs) : bool := (P_trace_b
     the receipt and the request outcome of a transaction can be compared; the state is compared after the block. *)
 Definition obs_diff_light (m i : obs) : N :=
   if negb (Bool.eqb (ob_ok m) (ob_ok i)) then 1 else if negb (ob_out m =? ob_out i)%N then 2 else 0.
-Fixpoint first_mismatch_m (mask : list (op * bool * bool)) (ms is : list obs) (i : N) : N :=
+Fixpoint first_mismatch_m (mask : list (op * bool * bool * bool)) (ms is : list obs) (i : N) : N :=
   match mask, ms, is with
-  | (_, _, full) :: mask', m :: ms', o :: is' =>
+  | (_, _, full, _) :: mask', m :: ms', o :: is' =>
       match (if full then obs_diff m o else obs_diff_light m o) with
       | 0%N => first_mismatch_m mask' ms' is' (N.succ i)
       | d => d * 1000 + i
@@ -920,33 +940,35 @@ Fixpoint first_mismatch_m (mask : list (op * bool * bool)) (ms is : list obs) (i
   | _, [], [] => 0
   | _, _, _ => 9000 + i
   end%N.
-Definition first_mismatch (ms is : list obs) (i : N) : N := first_mismatch_m (map (fun _ => (ORestart, true, true)) ms) ms is i.
+Definition first_mismatch (ms is : list obs) (i : N) : N := first_mismatch_m (map (fun _ => (ORestart, true, true, true)) ms) ms is i.
 
 Definition model_trace (f : cfg) (h : list op) : list obs := map obs_of (trace f st0 h).
 Definition model_trace_blocks (f : cfg) (bs : list (list op)) : list obs := map obs_of (trace_blocks f st0 bs).
 
-Definition cfg_of_bits5 (a b c d w : bool) : cfg :=
+Definition cfg_of_bits6 (a b c d w u : bool) : cfg :=
   {| d_cache_failed_events := a; d_cache_not_reloaded := b; d_logout_reject_unpauses := c; d_manage_reject_only := false; d_withdraw_paused := w;
-     d_cache_key := fun i => i; d_cache_deferred := d |}.
+     d_unpause_restores_locked := u; d_cache_key := fun i => i; d_cache_deferred := d |}.
+(** [d_unpause_restores_locked] is a fact of the code as it is *)
+Definition cfg_of_bits5 (a b c d w : bool) : cfg := cfg_of_bits6 a b c d w true.
 (** [d_withdraw_paused] is a fact of the code as it is *)
 Definition cfg_of_bits4 (a b c d : bool) : cfg := cfg_of_bits5 a b c d true.
 Definition cfg_reject_only : cfg :=
-  {| d_cache_failed_events := false; d_cache_not_reloaded := true; d_logout_reject_unpauses := false; d_manage_reject_only := true; d_withdraw_paused := true;
+  {| d_cache_failed_events := false; d_cache_not_reloaded := true; d_logout_reject_unpauses := false; d_manage_reject_only := true; d_withdraw_paused := true; d_unpause_restores_locked := true;
      d_cache_key := fun i => i; d_cache_deferred := false |}.
 (** the same flags with the cache keyed by the case-folded id *)
 Definition cfg_folded (g : cfg) : cfg :=
   {| d_cache_failed_events := d_cache_failed_events g; d_cache_not_reloaded := d_cache_not_reloaded g;
-     d_logout_reject_unpauses := d_logout_reject_unpauses g; d_manage_reject_only := d_manage_reject_only g; d_withdraw_paused := d_withdraw_paused g; d_cache_key := fold_key; d_cache_deferred := d_cache_deferred g |}.
+     d_logout_reject_unpauses := d_logout_reject_unpauses g; d_manage_reject_only := d_manage_reject_only g; d_withdraw_paused := d_withdraw_paused g; d_unpause_restores_locked := d_unpause_restores_locked g; d_cache_key := fold_key; d_cache_deferred := d_cache_deferred g |}.
 Definition cfg_of_bits (a b c : bool) : cfg := cfg_of_bits4 a b c false.
 (** the flag sets below [cur], the current one first *)
 Definition sub_cfgs (cur : cfg) : list cfg :=
   let opts (x : bool) := if x then [true; false] else [false] in
-  flat_map (fun w => flat_map (fun a => flat_map (fun b => flat_map (fun c => map (fun d => cfg_of_bits5 a b c d w) (opts (d_cache_deferred cur)))
+  flat_map (fun u => flat_map (fun w => flat_map (fun a => flat_map (fun b => flat_map (fun c => map (fun d => cfg_of_bits6 a b c d w u) (opts (d_cache_deferred cur)))
                                                  (opts (d_logout_reject_unpauses cur))) (opts (d_cache_not_reloaded cur)))
-           (opts (d_cache_failed_events cur))) (opts (d_withdraw_paused cur)).
+           (opts (d_cache_failed_events cur))) (opts (d_withdraw_paused cur))) (opts (d_unpause_restores_locked cur)).
 Definition without_withdraw_paused (g : cfg) : cfg :=
   {| d_cache_failed_events := d_cache_failed_events g; d_cache_not_reloaded := d_cache_not_reloaded g;
-     d_logout_reject_unpauses := d_logout_reject_unpauses g; d_manage_reject_only := d_manage_reject_only g; d_withdraw_paused := false;
+     d_logout_reject_unpauses := d_logout_reject_unpauses g; d_manage_reject_only := d_manage_reject_only g; d_withdraw_paused := false; d_unpause_restores_locked := d_unpause_restores_locked g;
      d_cache_key := d_cache_key g; d_cache_deferred := d_cache_deferred g |}.
 
 (** verdict of one history (a list of blocks): the property on the implementation's own trace first; then
@@ -967,7 +989,8 @@ Definition judge_hist (cur : cfg) (c : list (list op) * list obs) : verdict :=
   | d => let w := (d / 100000)%N in
          let e := match matched with
                   | Some f => if (w =? 1)%N then d_cache_failed_events f || d_cache_deferred f
-                              else if (w =? 4)%N then d_logout_reject_unpauses f else false
+                              else if (w =? 4)%N then d_logout_reject_unpauses f
+                              else if (w =? 5)%N then d_unpause_restores_locked f else false
                   | None => false
                   end in
          let e' := match matched with
